@@ -14,6 +14,7 @@ What is read from the source (class `IndividualParameters`), and where it goes (
 * `subset`, `__getitem__`      -> `gen_subset_rule`
 * `_save_json`, `_load_json`   -> `gen_json_members`, and the `DirectFill` table of `gen_builders`
 * `from_pytorch`, `_load_csv`, `load`, `__init__` -> `gen_builders`, `gen_load_dispatch`
+* `save`, `_check_and_get_extension`, `_save_csv`, `__init__` -> `gen_save_rule` (default extension, the extensions that select each writer)
 * every attribute store of the class -> `gen_attributes` (the attributes an instance carries), `gen_writers` (the methods that modify them)
 
 Method: each method is UNIFIED with a template written below (python source with holes `HOLE_x`): same statements, same calls,
@@ -394,7 +395,33 @@ def __init__(self):
     self._indices = []
     self._individual_parameters = {}
     self._parameters_shape = None
-    self._default_saving_type = "csv"
+    self._default_saving_type = HOLE_DEFAULT
+'''
+
+T_SAVE = '''
+def save(self, path, **kwargs):
+    if self._parameters_shape is None:
+        raise HOLE_EXC0
+    extension = self._check_and_get_extension(path)
+    if extension is None:
+        warnings.warn(HOLE_MSG)
+        extension = self._default_saving_type
+        path = path + "." + extension
+    if extension == HOLE_CSV:
+        self._save_csv(path, **kwargs)
+    elif extension == HOLE_JSON:
+        self._save_json(path, **kwargs)
+    else:
+        raise HOLE_EXC
+'''
+
+T_GET_EXT = '''
+def _check_and_get_extension(path):
+    _, ext = os.path.splitext(path)
+    if len(ext) == 0:
+        return None
+    else:
+        return ext[1:]
 '''
 
 T_PARAM_SIZE = '''
@@ -661,7 +688,16 @@ def build() -> dict:
     out["gen_types"] = ("type_table", f"mkTT {table[0]} [{'; '.join(table[1])}] {table[2]}")
     out["gen_add"] = ("list astep", "[" + ";\n   ".join(steps) + "]")
 
-    unify_method(methods, "__init__", T_INIT)
+    u0 = unify_method(methods, "__init__", T_INIT)
+    unify_method(methods, "_check_and_get_extension", T_GET_EXT)
+    if "staticmethod" not in decorators(methods["_check_and_get_extension"]):
+        raise Untranslatable("_check_and_get_extension is not a staticmethod")
+    u = unify_method(methods, "save", T_SAVE)
+    if dec_exc(u.holes["HOLE_EXC0"]) != "ExcInput" or dec_exc(u.holes["HOLE_EXC"]) != "ExcInput":
+        raise Untranslatable("save: exception classes")
+    dec_exc(ast.Call(func=ast.Name(id="Warning", ctx=ast.Load()), args=[u.holes["HOLE_MSG"]], keywords=[]))      # the message is pure
+    out["gen_save_rule"] = ("save_rule", f"mkSV {coq_str(dec_str(u0.holes['HOLE_DEFAULT']))} {coq_str(dec_str(u.holes['HOLE_CSV']))} "
+                                          f"{coq_str(dec_str(u.holes['HOLE_JSON']))}")
     unify_method(methods, "_parameters_size", T_PARAM_SIZE)
     if "property" not in decorators(methods["_parameters_size"]):
         raise Untranslatable("_parameters_size is not a property")
